@@ -82,7 +82,7 @@ CLAIMED = {
             "PARTIAL by nature (convergence is a limit statement): machine-checked proof that the kappa face value is exact for linear data and has defect exactly (k-1/3)h^2/2 on quadratics (third order iff k = 1/3, the value the source's extrapol3 carries), of every temporal order condition (C05), of the Lax-Richtmyer error accumulation for any non-expansive one-step map (with non-expansion of first-order upwind from C09), and of conservation form + flux consistency (C01, C02). Convergence itself - observed orders for every reconstruction, monotone L1 error decrease for random Riemann problems against an independent exact Riemann solver, agreement of the packaged aerokit-based reference solutions - is explored numerically and labelled as such.",
             "Trusted: Lean kernel + standard axioms; gen_tables.py; the exact Riemann solver of the harness (riemann_exact.py); aerokit is external and unmodelled.",
             "DESIGN.md 4/C04, 6"),
-    'C15': ("Lean 4 theorems on the structured 2D pipeline model (balance, periodic invariance, x/y shift equivariance, transposition, row-by-row reduction to the 1D pipeline) for arbitrary kernels obeying kernel laws proved for the Euler 2D kernels + exact-Q correspondence of every 2D stage",
+    'C15': ("Lean 4 theorems on the structured 2D pipeline model (balance, periodic invariance, x/y shift equivariance, transposition, reflection in x and y with any boundary pairs, row-by-row reduction to the 1D pipeline) for arbitrary kernels obeying kernel laws proved for the Euler 2D kernels + exact-Q correspondence of every 2D stage",
             "Machine-checked proof on the 2D model: transposing the problem (grid, data, velocity components, boundary pairs) transposes the residual; for y-independent data with periodic top/bottom each row of the 2D residual is the residual of the corresponding 1D discretisation (same flux, kappa scheme / first order) and the y-fluxes cancel; kernel laws (transposition, reduction to 1D, mirror in x and y) proved for e2Centered / e2Hlle (C02). Partial: reflections of the full operator, wall (sym) top/bottom in the reduction, and inlet/outlet boundary kernels' 2D mirror laws are explored by the sweep over all boundary tags.",
             "Trusted: Lean kernel + standard axioms; the structured-index model and its flattening maps (validated by L-rhs2d over all four stage arrays and L-mesh2d); sampling for the partial clauses.",
             "DESIGN.md 4/C15"),
